@@ -215,6 +215,12 @@ func cmdCheck(args []string) int {
 			defer wg.Done()
 			sem <- struct{}{}
 			defer func() { <-sem }()
+			tObl := time.Now()
+			defer func() {
+				if *verbose && time.Since(tObl) > 4*time.Second {
+					fmt.Printf("  slow %-70s %.1fs wall (%s)\n", o.Name, time.Since(tObl).Seconds(), o.Result.Solver)
+				}
+			}()
 			to := time.Duration(*timeout) * time.Second
 			if o.Expect == "sat" {
 				to = 3 * time.Second
@@ -251,6 +257,16 @@ func cmdCheck(args []string) int {
 					o.Result = r
 				}
 			}
+			triedQuick := false
+			if o.Result.Verdict != "unsat" && o.Expect == "unsat" && strings.Contains(o.Query, "\n(assert (= let_") {
+				// a short attempt on the full query first: most obligations need the let definitions
+				triedQuick = true
+				r := Solve(o.Query, smtDir, fmt.Sprintf("q%04d_%s", i, sanitize(o.Name)), 2*time.Second, true)
+				if r.Verdict == "unsat" {
+					o.Result = r
+				}
+			}
+			_ = triedQuick
 			if o.Result.Verdict != "unsat" && o.Expect == "unsat" && strings.Contains(o.Query, "\n(assert (= let_") {
 				// contract lets kept opaque: the definitions of the let constants are dropped (fewer
 				// assumptions, so a proof of this variant is a proof of the obligation)
